@@ -1230,11 +1230,33 @@ class Mesh:
     def remove_duplicate_nodes(self):
         p, t = self._remove_duplicate_nodes(self.doflocs,
                                             self.t)
-        return replace(
+        out = replace(
             self,
             doflocs=p,
             t=t,
+            _boundaries=None,
         )
+        if self._boundaries is not None:
+            # the vertices, hence the facets, are renumbered: look the
+            # tagged facets up through their new vertex numbers
+            tmp = np.ascontiguousarray(self.doflocs.T)
+            _, ixb = np.unique(tmp.view([('', tmp.dtype)] * tmp.shape[1]),
+                               return_inverse=True)
+            ixb = ixb.reshape(-1)
+            lookup = {tuple(np.sort(f)): i
+                      for i, f in enumerate(out.facets.T)}
+            boundaries = {}
+            for k, v in self._boundaries.items():
+                ix = np.array(
+                    [lookup[tuple(np.sort(ixb[self.facets[:, f]]))]
+                     for f in np.asarray(v)],
+                    dtype=np.int32,
+                )
+                boundaries[k] = (OrientedBoundary(ix, v.ori)
+                                 if isinstance(v, OrientedBoundary)
+                                 and v.ori is not None else ix)
+            out = replace(out, _boundaries=boundaries)
+        return out
 
     def element_finder(self, mapping=None):
         """Return a function handle from location to element index.
